@@ -122,6 +122,9 @@ static void out_result(KSI_PolicyVerificationResult *r) {
 }
 
 #include "kx_rules.h"
+/* one caller-owned verification context per KSI context, kept across commands (uservc=1): what a caller does who initialises
+ * a context once and passes it to every call */
+static KSI_VerificationContext uservc[NSLOT]; static int uservc_init[NSLOT];
 static int cmd_verify(void) {
 	/* verify <c> <s> <policy> [doc=imprint] [lvl=n] [pub=string] [pubfile=slot] [ext=0|1] [api=verifier|withpolicy|datahash|document|sigverify] */
 	KSI_CTX *c = ctxs[atoi(tok[1])]; KSI_Signature *s = sigs[atoi(tok[2])]; const KSI_Policy *pol = policy_by_name(tok[3]);
@@ -178,6 +181,13 @@ static int cmd_verify(void) {
 		} else rc = KSI_Signature_verifyWithPolicy(s, NULL, 0, pol, &vc);
 		vc.documentHash = NULL; vc.userPublication = NULL; vc.userPublicationsFile = NULL;
 		KSI_VerificationContext_clean(&vc);
+	} else if (!strcmp(api, "withpolicy") && kv("uservc")) {
+		int ci = atoi(tok[1]); KSI_VerificationContext *u = &uservc[ci];
+		if (!uservc_init[ci]) { rc = KSI_VerificationContext_init(u, c); if (rc != KSI_OK) { KSI_DataHash_free(dh); KSI_PublicationData_free(pd); KSI_Policy_free(custom); kx_out(" stage=uservc-init"); return rc; } uservc_init[ci] = 1; }
+		u->extendingAllowed = (int)kvl("ext", 0);
+		rc = KSI_Signature_verifyWithPolicy(s, dh, kvu("lvl", 0), pol, u);
+		/* the explicit arguments of one call must not stay behind in the caller's context */
+		if (u->documentHash != NULL || u->docAggrLevel != 0 || u->signature != NULL) kx_out(" vcdirty=1");      /* reported, not repaired: a later call through this context shows what it leads to */
 	} else if (!strcmp(api, "withpolicy")) {
 		if (pd || kv("pubfile") || kv("ext")) {
 			KSI_VerificationContext_init(&vc, c);
@@ -280,7 +290,9 @@ static void verify_internal_brief(KSI_CTX *c, KSI_Signature *s) { KSI_Verificati
 static int dispatch(void) {
 	const char *c0 = tok[0];
 	if (!strcmp(c0, "ctx")) { int i = atoi(tok[1]); int rc = KSI_CTX_new(&ctxs[i]); if (rc == KSI_OK) kx_net_ctx_init(ctxs[i]); return rc; }
-	if (!strcmp(c0, "ctxfree")) { int i = atoi(tok[1]); KSI_CTX_free(ctxs[i]); ctxs[i] = NULL; return 0; }
+	if (!strcmp(c0, "ctxfree")) { int i = atoi(tok[1]);
+		if (uservc_init[i]) { uservc[i].signature = NULL; uservc[i].documentHash = NULL; uservc[i].userPublication = NULL; uservc[i].userPublicationsFile = NULL; KSI_VerificationContext_clean(&uservc[i]); uservc_init[i] = 0; }
+		KSI_CTX_free(ctxs[i]); ctxs[i] = NULL; return 0; }
 	if (!strcmp(c0, "opt")) { int o = opt_by_name(tok[2]); if (o < 0) return -1; return KSI_CTX_setOption(ctxs[atoi(tok[1])], o, (void *)(size_t)strtoull(tok[3], NULL, 0)); }
 	if (!strcmp(c0, "log")) { int i = atoi(tok[1]); int rc = KSI_CTX_setLoggerCallback(ctxs[i], logcb, &loglines[i]); if (rc) return rc; return KSI_CTX_setLogLevel(ctxs[i], atoi(tok[2])); }
 	if (!strcmp(c0, "loglines")) { kx_out(" n=%lu", loglines[atoi(tok[1])]); return 0; }
